@@ -7322,6 +7322,12 @@ fn eval_break(env: &mut Env, expr_value_is_used: bool) {
     // Pop all the currently evaluating expressions until we are no
     // longer inside the innermost loop.
     while let Some((expr_state, expr)) = env.current_frame_mut().exprs_to_eval.pop() {
+        // A loop that hasn't started yet is a later expression in
+        // the body we're leaving, not the loop we're inside.
+        if matches!(expr_state, ExpressionState::NotEvaluated) {
+            continue;
+        }
+
         match &expr.expr_ {
             Expression_::While(_, _) => {
                 env.current_frame_mut()
@@ -7372,6 +7378,12 @@ fn eval_continue(env: &mut Env) {
     // Pop all the currently evaluating expressions until we are back
     // at the loop.
     while let Some((expr_state, expr)) = env.current_frame_mut().exprs_to_eval.pop() {
+        // A loop that hasn't started yet is a later expression in
+        // the body we're leaving, not the loop we're inside.
+        if matches!(expr_state, ExpressionState::NotEvaluated) {
+            continue;
+        }
+
         if matches!(
             expr.expr_,
             Expression_::While(_, _) | Expression_::ForIn(_, _, _)
